@@ -108,6 +108,40 @@ class ImplRunner:
     def reset(self):
         self.mgr = None
         self.ind = None
+        self.hex = None
+        self.pending = []
+
+    def _hex_op(self, fn):
+        h = self.hex
+        if h is None:
+            return ["bad-op"]
+
+        def f():
+            self.hex = None
+            fn(h)
+            self.hex = h
+
+        return self._try(f)
+
+    def _member(self, ps):
+        spec = specs.params_to_spec(ps)
+        form = ps.get("form") or "obj"
+        mspec = {k: v for k, v in spec.items() if k not in ("fill", "ha", "life")}
+        if form == "dict":
+            d = specs.as_config_dict(mspec, with_manager=False)
+            if mspec.get("tf"):
+                d["timeframe"] = mspec["tf"]
+            return d
+        kw = {}
+        ind = specs.build_indicator({**mspec, "tf": None}, [], with_manager=False) if not mspec.get("tf") else None
+        if ind is None:
+            from hexital import indicators as _i  # noqa
+
+            full = dict(mspec)
+            ind = specs.build_indicator({**full, "fill": False, "ha": False, "life": None}, [], with_manager=True)
+        if form == "settings":
+            return ind.settings
+        return ind
 
     def _ind_op(self, fn):
         ind = self.ind
@@ -243,6 +277,121 @@ class ImplRunner:
                 return ["noind"]
             ps, _ = split_params(rest[1:])
             return [self._acc(rest[0], ps)]
+        if op == "iset":
+            if self.ind is None:
+                return ["bad-op"]
+            ps, _ = split_params(rest)
+            v = ps["val"]
+            if v.startswith("{"):
+                val = {}
+                for kv in filter(None, v[1:-1].split(";")):
+                    k, x = kv.split("=", 1)
+                    val[k] = wire.dec_num(x)
+            else:
+                val = wire.dec_num(v)
+            try:
+                c = self.ind.candles[int(ps["idx"])]
+            except IndexError as e:
+                return [wire.enc_err(e)]
+            (c.sub_indicators if ps.get("sub") == "1" else c.indicators)[ps["name"]] = val
+            return ["ok"]
+        if op == "ana":
+            if self.ind is None:
+                return ["bad-op"]
+            ps, _ = split_params(rest)
+            from hexital.analysis import MOVEMENT_MAP, PATTERN_MAP, movement
+
+            fns = {**MOVEMENT_MAP, **PATTERN_MAP, "above": movement.above, "below": movement.below}
+            spec = {"fn": ps["fn"]}
+            for k in specs.ANALYSIS.get(ps["fn"], ["a", "b"]):
+                if ps.get(k) is not None:
+                    spec[k] = int(ps[k]) if k in ("length", "lookback") else ps[k]
+            kw = {specs.ANALYSIS_KW[k]: v for k, v in spec.items() if k != "fn"}
+            if ps["fn"] in ("above", "below"):
+                kw = {"indicator": spec.get("a", "close"), "indicator_two": spec.get("b", "open")}
+            if ps.get("idx") is not None:
+                kw["index"] = int(ps["idx"])
+            try:
+                return [wire.enc_val(guarded(lambda: fns[ps["fn"]](self.ind.candles, **kw)))]
+            except Exception as e:  # noqa
+                return [wire.enc_err(e)]
+        if op == "hmember":
+            ps, _ = split_params(rest)
+            try:
+                m = self._member(ps)
+            except Exception as e:  # noqa
+                return [wire.enc_err(e)]
+            self.pending.append(m)
+            spec = specs.params_to_spec(ps)
+            probe = specs.build_indicator({**spec, "fill": False, "ha": False, "life": None}, [], with_manager=True)
+            return [f"ok name={probe.name}"]
+        if op == "hnew":
+            from hexital.core.hexital import Hexital
+
+            ps, rest = split_params(rest)
+            cs = mk_candles(int(ps["n"]), rest)
+            kw = mgr_kwargs(ps)
+            members, self.pending = self.pending, []
+
+            def f():
+                self.hex = None
+                self.hex = Hexital("H", cs, members, **kw)
+
+            return self._try(f)
+        if op == "hadd":
+            members, self.pending = self.pending, []
+            return self._hex_op(lambda h: h.add_indicator(members))
+        if op == "happ":
+            ps, rest = split_params(rest)
+            tuples = parse_candle_tuples(int(ps["n"]), rest)
+            enc = ps.get("enc") or "candle"
+            if enc == "candle":
+                data = [mk_candle(t) for t in tuples]
+            elif enc == "dict":
+                data = [dict(open=t[1], high=t[2], low=t[3], close=t[4], volume=t[5], timestamp=wire.secs_to_ts(t[0])) for t in tuples]
+            else:
+                data = [[t[1], t[2], t[3], t[4], t[5]] + ([wire.secs_to_ts(t[0])] if t[0] is not None else []) for t in tuples]
+            return self._hex_op(lambda h: h.append(data))
+        if op in ("hcalc", "hpurge", "hrecalc", "hcidx", "hrem"):
+            ps, _ = split_params(rest)
+            nm = ps.get("name")
+            if op == "hcalc":
+                return self._hex_op(lambda h: h.calculate(nm))
+            if op == "hpurge":
+                return self._hex_op(lambda h: h.purge(nm))
+            if op == "hrecalc":
+                return self._hex_op(lambda h: h.recalculate(nm))
+            if op == "hcidx":
+                return self._hex_op(lambda h: h.calculate_index(nm, int(ps.get("idx") or -1)))
+            return self._hex_op(lambda h: h.remove_indicator(nm))
+        if op == "hsnap":
+            if self.hex is None:
+                return ["nohex"]
+            out = []
+            for k, m in self.hex._candles.items():
+                out.append(f"mgr {k} {len(m.candles)}")
+                out.extend(wire.show_candle(c) for c in m.candles)
+            return out
+        if op == "hacc":
+            if self.hex is None:
+                return ["nohex"]
+            ps, _ = split_params(rest[1:])
+            nm = ps.get("name") or ""
+            h = self.hex
+            try:
+                if rest[0] == "reading":
+                    return [wire.enc_val(h.reading(nm, int(ps.get("idx") or -1)))]
+                if rest[0] == "prev_reading":
+                    return [wire.enc_val(h.prev_reading(nm))]
+                if rest[0] == "has_reading":
+                    return ["true" if h.has_reading(nm) else "false"]
+                if rest[0] == "as_list":
+                    return [" ".join(wire.enc_val(v) for v in h.reading_as_list(nm))]
+                if rest[0] == "names":
+                    return [" ".join(h.indicators)]
+            except Exception as e:  # noqa
+                return [wire.enc_err(e)]
+            return ["bad-acc"]
         if op == "msnap":
             if self.mgr is None:
                 return ["nomgr"]
